@@ -12,7 +12,7 @@ LEVEL = 'exploration'
 EXHAUSTIVE = {'quick': True, 'thorough': True}
 RULE = ('complete enumeration per logic: every subset of the literal constraints {p+, p-, ~p+, ~p-} (classical: {p, ~p}) '
         'on one subject (sentence letter, predication, uninterpreted sentence) in every insertion order at one world; '
-        'classical family also every subset/order of {a=a, ~a=a, E!a, ~E!a}; modal logics also every two-element '
+        'classical family also every subset/order of {a=a, ~a=a, E!a, ~E!a} and of {a=b, ~a=b, b=a, ~b=a}; modal logics also every two-element '
         'subset split over two worlds (must stay open unless it closes at one world... i.e. never closes across worlds). '
         'Oracle: closed <=> no reference value of p satisfies all constraints; if open, the value read by the model '
         'builder satisfies all of them and the library evaluator agrees. Each (logic, subject, subset, order) is one '
@@ -127,6 +127,48 @@ def classical_extras(name):
                 yield order
 
 
+CB = A.const(1)
+
+
+def identity_pairs():
+    "a = b / b = a and their negations: identity is symmetric, so the converse denial must close too."
+    ab = ('P', 'Identity', (CA, CB))
+    ba = ('P', 'Identity', (CB, CA))
+    lits = [('a=b', ab), ('~a=b', A.neg(ab)), ('b=a', ba), ('~b=a', A.neg(ba))]
+    for r in range(1, 5):
+        for sub in combinations(lits, r):
+            for order in permutations(sub):
+                yield order
+
+
+def check_identity_pair(name, order):
+    w0 = 0 if R.is_modal(name) else None
+    items = [(s, None, w0) for _, s in order]
+    label = ','.join(n for n, _ in order)
+    fam = R.base_of(name) + '*'
+    try:
+        tab, b = build_branch(name, items)
+    except Exception as e:
+        return [(f'C05|raises|{fam}|{type(e).__name__}', f'{name} [{label}]: {e!r}')]
+    names = {n for n, _ in order}
+    should_close = bool(names & {'a=b', 'b=a'}) and bool(names & {'~a=b', '~b=a'})
+    skey = '+'.join(sorted(names))
+    if b.closed and not should_close:
+        return [(f'C05|over-eager|{fam}|{skey}', f'{name} [{label}]: closed, but the literals are classically satisfiable')]
+    if not b.closed and should_close:
+        return [(f'C05|missed|{fam}|{skey}', f'{name} [{label}]: open, but identity is symmetric: no classical model')]
+    if not b.closed:
+        try:
+            model = get_logic(name).Model().read_branch(b)
+            kw = dict(world=w0) if w0 is not None else {}
+            for n, s in order:
+                if str(model.value_of(A.to_lib(s), **kw)) != 'T':
+                    return [(f'C05|model-value|{fam}|{skey}', f'{name} [{label}]: model does not make {n} true')]
+        except Exception as e:
+            return [(f'C05|model-raises|{fam}|{type(e).__name__}', f'{name} [{label}]: model building raised {e!r}')]
+    return []
+
+
 def check_classical_extra(name, order):
     w0 = 0 if R.is_modal(name) else None
     items = [(s, None, w0) for _, s in order]
@@ -169,6 +211,8 @@ def obligations(name):
     if R.is_classical(name):
         for order in classical_extras(name):
             yield ('extra', order)
+        for order in identity_pairs():
+            yield ('idpair', order)
 
 
 def shards(tier, seed):
@@ -189,9 +233,9 @@ def run_shard(shard, acc):
                 sample = f'{name}: {A.show(subj)} with literals [{", ".join(cname(c) for c in cons)}]' if first and len(cons) > 1 else None
             else:
                 order = ob[1]
-                res = check_classical_extra(name, order)
-                key = (name, 'extra', [n for n, _ in order])
-                case = dict(kind='extra', logic=name, order=[[n, A.to_json(s)] for n, s in order])
+                res = (check_classical_extra if ob[0] == 'extra' else check_identity_pair)(name, order)
+                key = (name, ob[0], [n for n, _ in order])
+                case = dict(kind=ob[0], logic=name, order=[[n, A.to_json(s)] for n, s in order])
                 sample = None
             if sample:
                 first = False
@@ -204,4 +248,5 @@ def replay(case):
     if case['kind'] == 'set':
         return check_set(case['logic'], case['subject_kind'], A.from_json(case['subject']),
                          [tuple(c) for c in case['constraints']], case['worlds'])
-    return check_classical_extra(case['logic'], [(n, A.from_json(s)) for n, s in case['order']])
+    f = check_classical_extra if case['kind'] == 'extra' else check_identity_pair
+    return f(case['logic'], [(n, A.from_json(s)) for n, s in case['order']])
